@@ -65,7 +65,7 @@ def make_world(seed_rng_key, run):
             anti = anti.iloc[rng.permutation(len(anti))]
     w["tgt"], w["anti"], w["ref"] = C04._cna(tgt), C04._cna(anti), C04._cna(ref, "ref")
     rows = []
-    for c in ("chr1", "chr2"):
+    for c in ("chr2", "chr10"):
         pos = 1000
         for k in range(int(rng.integers(3, 25))):
             pos += int(rng.integers(-200, 3000))
